@@ -2,7 +2,7 @@
    Statements only (copied from the lemma libraries); every proof is a bare
    `exact`; see the cited files in coq/proofs for the proofs. *)
 From Coq Require Import List NArith ZArith Bool Arith Sorting.Sorted Sorting.Permutation.
-From D2P Require Import Str Err Xml TableTypes Tables Fmt Merge Collector Walk TokFacts MiscFacts ProjFacts PyVal Source SourceBase ViewFacts SourceViews SourceEscape SourceFmt.
+From D2P Require Import Str Err Xml TableTypes Tables Fmt Merge Collector Walk TokFacts MiscFacts ProjFacts PyVal Source SourceBase ViewFacts SourceViews SourceEscape SourceFmt PyHeap SourceHeap SourceHeapRuns SourceCaret SourceFresh SourceRuns.
 Import ListNotations.
 Open Scope N_scope.
 Import String.StringSyntax.
@@ -200,3 +200,24 @@ Theorem C07_source_gather_Pr :
   S_gather_Pr ext (enc_fel (AE e ks)) VNone = lift_prd (gather_Pr e ks).
 Proof. exact src_gather_Pr. Qed.
 Print Assumptions C07_source_gather_Pr.
+
+(* SOURCE TIE (heap embedding): DepthCollector.escape leaves the heap alone and returns the model's rendering of text tokens under the html flag *)
+Theorem C07_source_heap_escape :
+  forall h self fmt s, rd_fmt h self = Some fmt ->
+    S_H_escape self (VStr s) h = HOk (VStr (render (py_truth fmt) (map TTxt s))) h.
+Proof. exact src_h_escape. Qed.
+Print Assumptions C07_source_heap_escape.
+
+(* SOURCE TIE: commence_run(elem) opens a run whose style is exactly what get_run_formatting returned (None / empty = no style), provided that function only allocates; the text starts empty *)
+Theorem C07_source_commence_run_style :
+  forall (epf erf : pv -> pv -> hm pv) (eps : pv -> hm pv),
+  forall fuel h h1 self pa ra rs elem fmt sty ss,
+    rd_open h self = Some (pa, ra, rs) -> rd_fmt h self = Some fmt ->
+    elem <> VNone ->
+    erf elem fmt h = HOk sty h1 -> extends h h1 ->
+    (sty = VNone /\ ss = []) \/ rd_strs h1 sty = Some ss ->
+    exists h', S_H_commence_run epf erf eps fuel self elem h = HOk VNone h'
+               /\ rd_open h' self = Some (pa, ra, rs ++ [(ss, [])])
+               /\ frame_runs h h' ra.
+Proof. exact src_commence_run_elem. Qed.
+Print Assumptions C07_source_commence_run_style.
